@@ -595,8 +595,14 @@ def verify_function(c, registry=REGISTRY, timeout_ms=None):
     t1 = time.time()
     retries_left = 4
     crosschecked = 0
+    n_failed = 0
     for ob in ctx.obligations:
-        verdict, backend, dt, model, reason = solve_one(ob, axioms, timeout_ms,
+        budget = timeout_ms
+        if n_failed >= 3:
+            # the function has failed already; the remaining obligations only add detail to the
+            # report: a fifth of the budget each
+            budget = max(1500, (timeout_ms or Z3_TIMEOUT_MS) // 5)
+        verdict, backend, dt, model, reason = solve_one(ob, axioms, budget,
                                                         first_opts=c.ghost.get('solver_first'))
         if verdict == 'unknown' and retries_left > 0:
             # undecided within the budget: one more attempt with four times the budget before the
@@ -608,6 +614,7 @@ def verify_function(c, registry=REGISTRY, timeout_ms=None):
             if v2 != 'unknown':
                 verdict, backend, model, reason = v2, b2 + '(retry)', model2, reason2
         if verdict != 'proved':
+            n_failed += 1
             # the function already has an obligation that is not discharged: retrying the others with
             # a larger budget cannot change the outcome of the run, only its duration
             retries_left = 0
